@@ -10,28 +10,35 @@
             segments_of(path) is Ok ==> ({
                 let segs = segments_of(path)->Ok_0;
                 let m = upper_string(method_text(*method));
-                match walk(*self.root, segs, Map::empty()) {
+                match walk_to(*self.root, segs, Map::empty()) {
                     // no node for this path: 404
                     None => r is Err && status_of(r->Err_0) == 404,
-                    Some((n, vars)) => match first_match(handlers_for(n, m), version) {
-                        // C01: exactly the endpoint registered for (path node, method, version), with the
-                        // variables bound along the path and that endpoint's own metadata
-                        Some(i) => {
-                            let h = handlers_for(n, m)[i];
-                            &&& r is Ok
-                            &&& r->Ok_0.handler == h.handler
-                            &&& vars_view(r->Ok_0.endpoint.variables@) == vars
-                            &&& r->Ok_0.endpoint.operation_id@ == h.operation_id@
-                            &&& r->Ok_0.endpoint.request_body_max_bytes == h.request_body_max_bytes
-                        },
-                        // C04: 405 iff the path is served at this version for some other method, else 404
-                        None => {
-                            &&& r is Err
-                            &&& status_of(r->Err_0) == (if served_for_some_method(n, version) { 405u16 } else { 404u16 })
-                        },
-                    },
+                    Some((n0, vars0)) => shadowed_by_wildcard(n0) /* known finding F5 */ || ({
+                        let (n, vars) = end_step(n0, vars0);
+                        match first_match(handlers_for(n, m), version) {
+                            // C01: exactly the endpoint registered for (path node, method, version), with the
+                            // variables bound along the path and that endpoint's own metadata
+                            Some(i) => {
+                                let h = handlers_for(n, m)[i];
+                                &&& r is Ok
+                                &&& r->Ok_0.handler == h.handler
+                                &&& vars_view(r->Ok_0.endpoint.variables@) == vars
+                                &&& r->Ok_0.endpoint.operation_id@ == h.operation_id@
+                                &&& r->Ok_0.endpoint.request_body_max_bytes == h.request_body_max_bytes
+                            },
+                            // C04: 405 iff the path is served at this version for some other method, else 404;
+                            // "A 405 response carries an Allow header listing exactly the methods for which that
+                            //  path is served at that version"
+                            None => {
+                                &&& r is Err
+                                &&& status_of(r->Err_0) == (if served_for_some_method(n, version) { 405u16 } else { 404u16 })
+                                &&& served_for_some_method(n, version) ==>
+                                        (forall|t: Seq<char>| allow_has(r->Err_0, t) <==> method_served(n, version, t))
+                            },
+                        }
+                    }),
                 }
-            }), // @dispatch_follows_the_trie_exactly
+            }), // @dispatch_follows_the_registered_routes
 //@ body_start
         broadcast use ax_string_ext, ax_string_obeys_cmp, ax_upper_string;
 //@ closure 0
@@ -50,8 +57,8 @@
             invariant
                 segments_of(path) is Ok, // @inv_path_decoded
                 wf_node(**node), // @inv_current_node_wellformed
-                walk(*self.root, segments_of(path)->Ok_0, Map::empty())
-                    == walk(**node, IteratorSpec::remaining(&all_segments), vars_view(variables@)), // @inv_rest_of_the_walk_from_here
+                walk_to(*self.root, segments_of(path)->Ok_0, Map::empty())
+                    == walk_to(**node, IteratorSpec::remaining(&all_segments), vars_view(variables@)), // @inv_rest_of_the_walk_from_here
             ensures
                 IteratorSpec::remaining(&all_segments).len() == 0,
 //@ loop 0 body_start
@@ -84,7 +91,54 @@
                 invariant
                     status_of(err) == 405, // @inv_still_405
                     wf_node(**node),
+                    hist == it.history@,
+                    it.history@ + IteratorSpec::remaining(&it.iter) == IteratorSpec::remaining(&it.snapshot@),
+                    forall|k: String| node.methods@.contains_key(k) ==> exists|i: int| 0 <= i < IteratorSpec::remaining(&it.snapshot@).len()
+                        && *IteratorSpec::remaining(&it.snapshot@)[i].0 == k,
+                    forall|j: int| 0 <= j < hist.len() ==> node.methods@.contains_key(*hist[j].0) && node.methods@[*hist[j].0] == *hist[j].1,
+                    // the Allow values added so far are exactly the visited methods that are served at this version
+                    forall|t: Seq<char>| allow_has(err, t) <==> (exists|j: int| 0 <= j < hist.len() && (#[trigger] hist[j]).0@ == t
+                        && first_match(hist[j].1@, version) is Some), // @inv_allow_so_far_is_exactly_the_served_methods_visited
 //@ loop 2 body_start
                 broadcast use ax_string_obeys_cmp;
                 assert(node.methods@.contains_key(*allowed));
                 assert(header_value_ok(allowed@));
+                let ghost err0 = err;
+                let ghost hist0 = hist;
+                proof { hist = hist.push((allowed, handlers)); }
+//@ loop 2 body_end
+                proof {
+                    if first_match(handlers@, version) is Some {
+                        allow_push(err0, err, allowed@);
+                    }
+                    assert forall|t: Seq<char>| allow_has(err, t) <==> (exists|j: int| 0 <= j < hist.len() && (#[trigger] hist[j]).0@ == t
+                        && first_match(hist[j].1@, version) is Some) by {
+                        let last = hist0.len() as int;
+                        assert(hist[last] == (allowed, handlers));
+                        assert(forall|j: int| 0 <= j < hist0.len() ==> hist[j] == hist0[j]);
+                        if exists|j: int| 0 <= j < hist0.len() && (#[trigger] hist0[j]).0@ == t && first_match(hist0[j].1@, version) is Some {
+                            let j = choose|j: int| 0 <= j < hist0.len() && (#[trigger] hist0[j]).0@ == t && first_match(hist0[j].1@, version) is Some;
+                            assert(hist[j].0@ == t);
+                        }
+                    }
+                }
+//@ before "for (allowed, handlers)" 0
+            let ghost mut hist: Seq<(&String, &Vec<ApiEndpoint<Context>>)> = Seq::empty();
+            proof { assert(own_headers(err) =~= Seq::<(Seq<char>, Seq<char>)>::empty()); }
+//@ before "Err(err)" 0
+            proof {
+                // every method of the node was visited ...
+                assert(forall|k: String| node.methods@.contains_key(k) ==> exists|i: int| 0 <= i < hist.len() && *hist[i].0 == k);
+                // ... so the Allow values are exactly the methods served at this version
+                assert forall|t: Seq<char>| allow_has(err, t) <==> method_served(**node, version, t) by {
+                    if allow_has(err, t) {
+                        let j = choose|j: int| 0 <= j < hist.len() && (#[trigger] hist[j]).0@ == t && first_match(hist[j].1@, version) is Some;
+                        assert(node.methods@.contains_key(*hist[j].0));
+                    }
+                    if method_served(**node, version, t) {
+                        let k = choose|k: String| #[trigger] node.methods@.contains_key(k) && k@ == t && first_match(node.methods@[k]@, version) is Some;
+                        let i = choose|i: int| 0 <= i < hist.len() && *hist[i].0 == k;
+                        assert(hist[i].0@ == t);
+                    }
+                }
+            }
